@@ -4,3 +4,4 @@ open Cherab.Groups Cherab.Gen.GroupTable
 /-! Diagnostic only (not a proof obligation): which generated descriptors are not admissible.  Read by the harness when
 `table_wf` does not hold, to seed the failing-input search and to demand one failing input per descriptor. -/
 #eval (table.filter fun d => !d.admissible table).map fun d => d.cls ++ "." ++ d.name
+#eval (classes.filter fun c => !c.sliceKeys).map fun c => c.name ++ ".__getitem__"
